@@ -4,7 +4,7 @@
 //! at any callback index; all histories with at most d deviations are run on the real solvers.
 
 use crate::env::Ans;
-use crate::problems::{base, reflect, Base, Prob};
+use crate::problems::{warp, base, reflect, Base, Prob};
 use crate::report::{is_thorough, CaseOut, Report, Violation};
 use crate::run::{mname, run_lowlevel, Cfg, LowRun, Tol, M6};
 use crate::util::{par_map, time_slack};
@@ -64,6 +64,16 @@ fn scenes(m: Method, backward: bool) -> Vec<Scene> {
     if m == Method::DOPRI5 || m == Method::DOP853 {
         let mut sc = mk(base(Base::Harmonic(2.0)), 1.5, 1e-5, 1e-8, false);
         sc.cfg.stiff_test = Some(1);
+        v.push(sc);
+    }
+    // a right-hand side that depends on t (the dense-output stages of DOP853 are evaluated at their own abscissae)
+    v.push(mk(warp(&base(Base::Logistic(2.0)), crate::problems::Warp::Sin), 1.5, 1e-5, 1e-8, false));
+    // steps pinned at an eighth of the interval (first_step = max_step = span/8, an easy problem): x + h lands on
+    // xend exactly, with no slack for a look-ahead factor to absorb
+    if m != Method::RK4 {
+        let mut sc = mk(lin2(), 1.0, 1e-3, 1e-6, false);
+        sc.cfg.first_step = Some(sc.cfg.xend / 8.0);
+        sc.cfg.max_step = Some(1.0 / 8.0);
         v.push(sc);
     }
     // the PI controller's memory (builder option beta > 0; the default 0 switches it off): an answer that leaves
